@@ -460,11 +460,11 @@ def from_long_to_nested(
     )
     X_nested = from_multi_index_to_nested(X_nested, instance_index=instance_column_name)
 
-    n_columns = X_nested.shape[1]
-    if column_names is None:
-        X_nested.columns = _make_column_names(n_columns)
-
-    else:
+    # pivot has ordered the variables by their identifier and labelled the
+    # columns with it: keep these labels (relabelling them var_0, var_1, ... by
+    # position would put data under another variable's name whenever the
+    # identifiers are not already in sorted order)
+    if column_names is not None:
         X_nested.columns = column_names
 
     # # get distinct dimension ids
